@@ -83,6 +83,7 @@ pub fn field_values() -> Vec<DocVal> {
         Float(-1.0),
         Float(9.3e18),
         Float(9223372036854775807.0),
+        Float(18446744073709551616.0),
         Float(-9223372036854775808.0),
         Float(-9.3e18),
         Float(1e300),
@@ -102,6 +103,8 @@ pub fn field_values() -> Vec<DocVal> {
         DocVal::s("2.5"),
         DocVal::s("9223372036854775807"),
         DocVal::s("9223372036854775808"),
+        DocVal::s("18446744073709551615"),
+        DocVal::s("18446744073709552000"),
         DocVal::s("00000000000000000042"),
         DocVal::s("+0000000000000000000001"),
         DocVal::s("-00000000000000000000"),
@@ -161,6 +164,15 @@ pub fn build_cases() -> Vec<Case> {
             push("flt(k): float pattern", format!("    flt(n): '{p}{c:?}'\n"), "A", &docs1);
         }
     }
+    // constants outside the signed range: a loader may refuse them; one that does not has to give
+    // them the meaning of the integer that was written
+    for c in [9223372036854775808u64, 18446744073709551615u64] {
+        push("wide integer", format!("    n: {c}\n"), "A", &docs1);
+        push("wide integer", format!("    int(n): {c}\n"), "A", &docs1);
+        push("wide integer", format!("    str(n): {c}\n"), "A", &docs1);
+        push("wide integer", format!("    n: [1, {c}]\n"), "A", &docs1);
+        push("wide integer", format!("    str(n): [1, {c}]\n"), "A", &docs1);
+    }
     for b in [true, false] {
         push("int(k): bool", format!("    int(n): {b}\n"), "A", &docs1);
         push("str(k): bool", format!("    str(n): {b}\n"), "A", &docs1);
@@ -175,15 +187,15 @@ pub fn build_cases() -> Vec<Case> {
     push("lists", "    str(n): [1, 2.5, true, 'x']\n".to_string(), "A", &docs1);
     push("lists", "    of(n, 2): ['>0', '<10', 5]\n".to_string(), "A", &docs1);
     push("lists", "    all(n): ['>0', '<10']\n".to_string(), "A", &docs1);
-    // condition forms (the tokeniser has no negative literals)
+    // condition forms
     let dummy = "    zz: zz\n".to_string();
-    for c in int_consts.iter().filter(|c| **c >= 0) {
+    for c in int_consts.iter() {
         for (_, o) in OPS {
             push("int(f) op c", dummy.clone(), &format!("int(n) {o} {c}"), &docs1);
             push("c op int(f)", dummy.clone(), &format!("{c} {o} int(n)"), &docs1);
         }
     }
-    for c in flt_consts.iter().filter(|c| **c >= 0.0) {
+    for c in flt_consts.iter() {
         let text = if format!("{c:?}").contains('e') { format!("{c:.1}") } else { format!("{c:?}") };
         for (_, o) in OPS {
             push("flt(f) op c", dummy.clone(), &format!("flt(n) {o} {text}"), &docs1);
@@ -302,8 +314,8 @@ pub fn run(tier: &str, seed: u64) -> i32 {
                 1 => (format!("    int(n): '{op}{ci}'\n"), "A".to_string()),
                 2 => (format!("    n: '{op}{cfs}'\n"), "A".to_string()),
                 3 => (format!("    flt(n): '{op}{cfs}'\n"), "A".to_string()),
-                4 => ("    zz: zz\n".to_string(), format!("int(n) {cop} {}", ci.unsigned_abs().min(i64::MAX as u64))),
-                5 => ("    zz: zz\n".to_string(), format!("{} {cop} flt(n)", cfs.trim_start_matches('-'))),
+                4 => ("    zz: zz\n".to_string(), format!("int(n) {cop} {ci}")),
+                5 => ("    zz: zz\n".to_string(), format!("{cfs} {cop} flt(n)")),
                 6 => {
                     for (d, y) in docs.iter_mut().zip(ys.iter()) {
                         d.0.push(("m".to_string(), y.clone()));
